@@ -27,6 +27,9 @@ type Check struct {
 	QuickRuns, ThoroughRuns int
 	// Run is one simulated execution.
 	Run func(e *Env)
+	// LeakIsViolation makes goroutines that are still blocked when the run's
+	// bubble ends a violation of the property (C20) instead of harness trouble.
+	LeakIsViolation bool
 	// MinimiseBudget caps re-executions spent on shrinking one failure.
 	MinimiseBudget int
 }
@@ -102,8 +105,18 @@ func (c *Check) Exec(t *testing.T, tape *Tape, trace bool) (out *Outcome) {
 			ok := t.Run("r", func(t *testing.T) {
 				// The end-of-bubble deadlock panic is raised in this goroutine.
 				defer func() {
-					if r := recover(); r != nil && e.infra == "" {
-						e.infra = fmt.Sprintf("bubble: %v", r)
+					if r := recover(); r != nil {
+						msg := fmt.Sprint(r)
+						leak := strings.Contains(msg, "blocked goroutines remain")
+						switch {
+						case leak && e.viol != nil:
+							// the run already failed; goroutines left behind are a consequence
+						case leak && c.LeakIsViolation:
+							e.viol = &Violation{Class: "goroutines-left-blocked-at-end-of-run",
+								Detail: "after everything was stopped and all connections closed, goroutines of the system are still blocked forever: " + msg}
+						case e.infra == "":
+							e.infra = "bubble: " + msg
+						}
 					}
 				}()
 				cryptotest.SetGlobalRandom(t, cryptoSeed)
@@ -272,6 +285,11 @@ func Main(t *testing.T, c *Check) {
 	start := time.Now()
 	var simTotal time.Duration
 	inflight := outPath + ".inflight"
+	var hashDump *os.File
+	if hp := os.Getenv("VERIF_DUMP_HASHES"); hp != "" {
+		hashDump, _ = os.Create(hp)
+		defer hashDump.Close()
+	}
 
 	for i := shardK; i < total; i += shardN {
 		if wallCap > 0 && time.Since(start) > wallCap {
@@ -285,6 +303,13 @@ func Main(t *testing.T, c *Check) {
 		}
 		out := c.Exec(t, NewTape(runSeed), false)
 		res.Runs++
+		if hashDump != nil {
+			v := ""
+			if out.Viol != nil {
+				v = out.Viol.Class
+			}
+			fmt.Fprintf(hashDump, "%d %x %d %s\n", i, out.Hash, len(out.Tape), v)
+		}
 		if out.Evals > 0 {
 			res.Evals += out.Evals
 		} else {
